@@ -199,6 +199,18 @@ def build(ch):
         body += [('i32.const', 77), ('call', 0)]
         m.start = add(None, (), (), body)
         cls['start_function'] = 1
+    # exports of globals / tables (valid; the translator offers no accessor for them and says so) anywhere in the export section:
+    # the function and memory exports around them must still come out
+    if ch.below(3) == 0:
+        cand = []
+        if nig + len(m.globals):
+            cand.append(('global', ch.below(nig + len(m.globals))))
+        if has_tab:
+            cand.append(('table', 0))
+        for kd, idx in cand[:1 + ch.below(2)]:
+            gname = fresh_name(b'x' + kd.encode())
+            m.exports.insert(ch.below(len(m.exports) + 1), (gname, kd, idx))
+            cls['global_or_table_export_between_others'] = 1
     return m, acc, {'igval': igval, 'tmap': tmap, 'cls': cls, 'regions': regions, 'has_mem': has_mem, 'has_tab': has_tab,
                     'imp_mem': imp_mem, 'imp_tab': imp_tab, 'mn': mn, 'tsize': tsize, 'igt': igt}
 
